@@ -52,13 +52,19 @@ structure Quirks where
   canonStr : Bool := false
   /-- F354: `deref()` of a leafref without target instance is an error instead of the empty node-set -/
   derefErr : Bool := false
+  /-- F353: an unprefixed identity name for which no module can be found (root context, or the name `*`) dereferences a NULL
+      module in `xpath_derived_` (the driver prints `NullMod`, the implementation crashes); off = the repaired code: LY_EVALID -/
+  nullModCrash : Bool := false
+  /-- F356: `deref()` of an instance-identifier without instance is an error instead of the empty node-set -/
+  derefInstErr : Bool := false
 deriving Inhabited, Repr
 
 def Quirks.ofMask (m : Nat) : Quirks :=
   { numFmt := m.testBit 0, strtold := m.testBit 1, truncFloor := m.testBit 2, bytes := m.testBit 3,
     predMerged := m.testBit 4, follPrec := m.testBit 5, nodeTests := m.testBit 6, predTrunc := m.testBit 7,
     textQuirk := m.testBit 8, strContainer := m.testBit 9, nsBool := m.testBit 10, floorNonFinite := m.testBit 11, substrNegInf := m.testBit 12,
-    canonStr := m.testBit 13, derefErr := m.testBit 14 }
+    canonStr := m.testBit 13, derefErr := m.testBit 14, nullModCrash := m.testBit 15,
+    derefInstErr := m.testBit 16 }
 
 inductive Value (N : Type)
   | ns (l : List Ref)
@@ -364,10 +370,10 @@ def derivedFn (env : Env) (self : Bool) (l : List Ref) (name : Bytes) : Except E
   | .ok id => pure (.bool (Yang.derivedAny env.facts env.doc self id l))
   | .noModule => throw .noModule
   | .notFound => throw .valid
-  | .nullMod => throw .nullMod
+  | .nullMod => if env.q.nullModCrash then throw .nullMod else throw .valid
 
-/-- `deref(ns)` (RFC 7950 §10.3.1) on a leafref: `xpath_deref` + `lyplg_type_resolve_leafref`.  instance-identifier values are not
-modelled (the first node then yields the empty set here). -/
+/-- `deref(ns)` (RFC 7950 §10.3.1) on a leafref: `xpath_deref` + `lyplg_type_resolve_leafref`.  instance-identifier terminals are
+handled by `derefAny` below (`Env.instTarget`); this function alone yields the empty set for them. -/
 def derefFn (env : Env) (l : List Ref) : Except Err (Value N) :=
   match l with
   | [] => pure (.ns [])
@@ -375,6 +381,26 @@ def derefFn (env : Env) (l : List Ref) : Except Err (Value N) :=
     match env.leafrefTargets x with
     | none => pure (.ns [])
     | some ts => if env.q.derefErr && ts.isEmpty then throw .inval else pure (.ns (env.norm ts))
+
+/-- `xpath_deref`, branch `LY_TYPE_INST`: `some ts` = `x` is a terminal of type instance-identifier; `ts` = the node its value
+denotes (`ly_path_eval`: one node — the first in document order should the data hold duplicates), or nothing -/
+def Env.instTarget (env : Env) (x : Ref) : Option (List Ref) :=
+  match env.doc.elem? x with
+  | some e =>
+    if e.term && env.facts.insts.contains (env.doc.spath x) then some ((env.norm (Yang.instTargets env.doc e.value)).take 1) else none
+  | none => none
+
+/-- `deref(ns)`: the first node is a leafref (`derefFn`), an instance-identifier, or anything else (empty node-set) -/
+def derefAny (env : Env) (l : List Ref) : Except Err (Value N) :=
+  match l with
+  | [] => pure (.ns [])
+  | x :: _ =>
+    match env.leafrefTargets x with
+    | some _ => derefFn env l
+    | none =>
+      match env.instTarget x with
+      | some ts => if env.q.derefInstErr && ts.isEmpty then throw .inval else pure (.ns ts)
+      | none => pure (.ns [])
 
 /-- the functions of RFC 7950 §10 that need schema facts; `none` = not one of them -/
 def callYang (env : Env) (f : String) (args : List (Value N)) : Option (Except Err (Value N)) :=
@@ -388,7 +414,7 @@ def callYang (env : Env) (f : String) (args : List (Value N)) : Option (Except E
   | "enum-value", [_] => some (throw .argType)
   | "re-match", [a, b] =>
     some (match Yang.reMatch (a.toStr env) (b.toStr env) with | some r => pure (.bool r) | none => throw .valid)
-  | "deref", [.ns l] => some (derefFn env l)
+  | "deref", [.ns l] => some (derefAny env l)
   | "deref", [_] => some (throw .argType)
   | _, _ => none
 
